@@ -901,6 +901,11 @@ func genRequestPaths(rng *PRNG, rs routeSpec, maxDepth, randomDeep int) []string
 	if rs.Base != "" {
 		specials = append(specials, rs.Base[:len(rs.Base)-1]+"/a", rs.Base+"a")
 	}
+	if i := strings.LastIndex(rs.SpecName, "/"); i >= 0 {
+		// a spec handler name with a directory part: its last element alone, and its directory alone,
+		// are ordinary paths (possibly matched by a template)
+		specials = append(specials, rs.Base+"/"+rs.SpecName[i+1:], rs.Base+"/"+rs.SpecName[:i])
+	}
 	out = append(out, specials...)
 	return out
 }
